@@ -1,43 +1,653 @@
-use desync::Desync;
-use desync_verif_rt as rt;
-use rt::kernel::{self, RunConfig};
-use rt::strategy::{build, StrategyKind};
-use std::sync::Arc;
+//! desim: deterministic simulation of desync with fault injection.
+//!
+//!   desim check  --prop C04 --tier quick            driver: spawns worker processes, writes evidence
+//!   desim worker --prop C04 --tier quick --worker i --of n   one slice of the run indices
+//!   desim replay <file>                              re-executes a recorded failure
+//!   desim determinism --prop C01 --runs N            self-test: every run twice, logs compared
 
-fn scenario() {
-    let d = Arc::new(Desync::new(0u32));
-    let d2 = d.clone();
-    let t = rt::thread::spawn_named("caller1", move || {
-        d2.desync(|v| *v += 1);
-        let x = d2.sync(|v| { *v += 10; *v });
-        assert!(x >= 11);
+mod families;
+mod gen;
+mod interp;
+mod ir;
+mod minimise;
+mod oracle;
+mod sim;
+mod world;
+
+use desync_verif_rt as rt;
+use rt::strategy::{mix, Rng, StrategyKind};
+use serde::{Deserialize, Serialize};
+use serde_json::json;
+use std::collections::{BTreeMap, BTreeSet};
+use std::sync::Arc;
+use std::time::Instant;
+
+pub const DEFAULT_SEED: u64 = 20260924;
+pub const STEP_CAP: u64 = 30_000;
+
+fn hash_str(s: &str) -> u64 {
+    let mut h = 0xcbf29ce484222325u64;
+    for b in s.bytes() {
+        h = (h ^ b as u64).wrapping_mul(0x100000001b3);
+    }
+    h
+}
+
+#[derive(Clone, Debug, Serialize, Deserialize)]
+pub struct ReplayFile {
+    pub property: String,
+    pub family: String,
+    pub verif_seed: u64,
+    pub run_index: u64,
+    pub run_seed: u64,
+    pub program: ir::Program,
+    pub schedule_default: String,
+    pub overrides: Vec<(u64, u32)>,
+    pub sweep_fire_at: Option<u64>,
+    pub violation: world::Violation,
+    pub events_tail: Vec<String>,
+    pub original_ops: usize,
+    pub original_overrides: usize,
+    pub minimise_runs: u64,
+    pub steps: u64,
+}
+
+pub const SCHEDULE_DEFAULT: &str = "at every scheduling point continue the current task if it is runnable, else run the runnable task with the lowest id; notify_one wakes the first registered waiter; no spurious wake-ups; no self/duplicate wakes; overrides are [decision index, task id | option index | 1]";
+
+pub fn pick_strategy(rng: &mut Rng, expected_len: u64) -> StrategyKind {
+    match rng.weighted(&[4, 3, 2, 2]) {
+        0 => StrategyKind::Uniform,
+        1 => StrategyKind::Sticky(*rng.pick(&[20, 50, 100, 200, 350, 500])),
+        2 => StrategyKind::Pct { depth: rng.range(1, 4) as u32, expected_len: expected_len.max(20) },
+        _ => StrategyKind::Delay { k: rng.range(1, 5) as u32, expected_decisions: (expected_len / 2).max(10) },
+    }
+}
+
+#[derive(Default, Serialize, Deserialize, Clone)]
+pub struct WorkerSummary {
+    pub runs: u64,
+    pub by_family: BTreeMap<String, u64>,
+    pub outcomes: BTreeMap<String, u64>,
+    pub steps: u64,
+    pub decisions: u64,
+    pub inconclusive: u64,
+    pub hung_runs: u64,
+    pub ambiguous_hangs: u64,
+    pub other_property_violations: BTreeMap<String, u64>,
+    pub nontrivial: u64,
+    pub sampled_hashes: Vec<u64>,
+    pub sample_mod: u64,
+    pub counters: BTreeMap<String, u64>,
+    pub cover: BTreeMap<String, u64>,
+    pub strategies: BTreeMap<String, u64>,
+    pub pools: BTreeMap<String, u64>,
+    pub liveness_modes: BTreeMap<String, u64>,
+    pub samples: Vec<serde_json::Value>,
+    pub violation: Option<ReplayFile>,
+    pub violation_count: u64,
+    pub harness_errors: Vec<String>,
+    pub wall_s: f64,
+    pub sweep_positions: u64,
+    pub max_ops: u64,
+    pub ops_total: u64,
+}
+
+fn add(m: &mut BTreeMap<String, u64>, k: &str, v: u64) {
+    if v > 0 {
+        *m.entry(k.to_string()).or_insert(0) += v;
+    }
+}
+
+fn prog_hash(p: &ir::Program) -> u64 {
+    hash_str(&serde_json::to_string(p).unwrap())
+}
+
+pub fn events_tail(w: &world::World, n: usize) -> Vec<String> {
+    let ev = &w.events;
+    let from = ev.len().saturating_sub(n);
+    ev[from..].iter().map(|e| format!("#{} task{} {} {} {}", e.seq, e.task, e.code, e.a, e.b)).collect()
+}
+
+pub fn event_log_hash(w: &world::World) -> u64 {
+    let mut h = 0xcbf29ce484222325u64;
+    for e in &w.events {
+        for x in [e.seq, e.task as u64, hash_str(e.code), e.a as u64, e.b as u64] {
+            h = (h ^ x).wrapping_mul(0x100000001b3);
+        }
+    }
+    h
+}
+
+struct Args {
+    m: BTreeMap<String, String>,
+    pos: Vec<String>,
+}
+
+fn parse_args() -> Args {
+    let mut m = BTreeMap::new();
+    let mut pos = vec![];
+    let a: Vec<String> = std::env::args().skip(1).collect();
+    let mut i = 0;
+    while i < a.len() {
+        if let Some(k) = a[i].strip_prefix("--") {
+            if i + 1 < a.len() && !a[i + 1].starts_with("--") {
+                m.insert(k.to_string(), a[i + 1].clone());
+                i += 2;
+            } else {
+                m.insert(k.to_string(), "1".to_string());
+                i += 1;
+            }
+        } else {
+            pos.push(a[i].clone());
+            i += 1;
+        }
+    }
+    Args { m, pos }
+}
+
+impl Args {
+    fn get(&self, k: &str) -> Option<&str> {
+        self.m.get(k).map(|s| s.as_str())
+    }
+    fn u64(&self, k: &str, d: u64) -> u64 {
+        self.get(k).and_then(|s| s.parse().ok()).unwrap_or(d)
+    }
+}
+
+fn verif_seed(a: &Args) -> u64 {
+    a.get("seed").and_then(|s| s.parse().ok()).or_else(|| std::env::var("VERIF_SEED").ok().and_then(|s| s.parse().ok())).unwrap_or(DEFAULT_SEED)
+}
+
+/// One case of the search space: everything about it follows from (seed, property, family, index).
+pub struct Case {
+    pub family: &'static str,
+    pub index: u64,
+    pub run_seed: u64,
+    pub prog: Arc<ir::Program>,
+    pub strategy: StrategyKind,
+    pub sched_seed: u64,
+    pub sweep_fire_at: Option<u64>,
+}
+
+pub fn make_case(seed: u64, prop: &str, fam: &families::Family, index: u64) -> Case {
+    let run_seed = mix(mix(mix(seed, hash_str(prop)), hash_str(fam.name)), index);
+    let mut rng = Rng::new(run_seed);
+    // position sweeps: cases come in groups that share one program and differ in the position
+    let (prog, sweep_fire_at) = if fam.sweep_width > 0 {
+        let group = index / fam.sweep_width;
+        let pos = index % fam.sweep_width;
+        let gseed = mix(mix(mix(seed, hash_str(prop)), hash_str(fam.name)), 0x5eed_0000_0000 + group);
+        let mut grng = Rng::new(gseed);
+        ((fam.gen)(&mut grng), Some(pos))
+    } else {
+        ((fam.gen)(&mut rng), None)
+    };
+    let expected = 40 + 25 * prog.op_count() as u64;
+    let strategy = pick_strategy(&mut rng, expected);
+    let sched_seed = rng.next();
+    Case { family: fam.name, index, run_seed, prog: Arc::new(prog), strategy, sched_seed, sweep_fire_at }
+}
+
+pub fn run_case(c: &Case) -> sim::RunReport {
+    sim::run_one(&sim::RunSpec { prog: c.prog.clone(), strategy: c.strategy.clone(), sched_seed: c.sched_seed, replay: None, sweep_fire_at: c.sweep_fire_at, step_cap: STEP_CAP })
+}
+
+fn worker(a: &Args) {
+    let prop = a.get("prop").expect("--prop").to_string();
+    let tier = a.get("tier").unwrap_or("quick").to_string();
+    let seed = verif_seed(a);
+    let wi = a.u64("worker", 0);
+    let wn = a.u64("of", 1);
+    let scale = a.get("scale").and_then(|s| s.parse::<f64>().ok()).unwrap_or(1.0);
+    let fams = families::for_property(&prop);
+    let t0 = Instant::now();
+    let mut s = WorkerSummary::default();
+    let thorough = tier == "thorough";
+    s.sample_mod = if thorough { 1024 } else { 64 };
+    let mut seen = BTreeSet::new();
+    let time_cap = a.u64("time-cap", if thorough { 3000 } else { 240 });
+    let known = minimise::load_known_findings();
+    'outer: for fam in &fams {
+        let total = ((if thorough { fam.thorough_runs } else { fam.quick_runs }) as f64 * scale) as u64;
+        let mut i = wi;
+        while i < total {
+            if (i / wn) % 512 == 0 && t0.elapsed().as_secs() > time_cap {
+                s.harness_errors.push(format!("time cap of {} s reached in family {}", time_cap, fam.name));
+                break 'outer;
+            }
+            let c = make_case(seed, &prop, fam, i);
+            let rep = run_case(&c);
+            let verdict = oracle::analyse(&rep);
+            s.runs += 1;
+            add(&mut s.by_family, fam.name, 1);
+            add(&mut s.outcomes, &format!("{:?}", rep.result.outcome), 1);
+            s.steps += rep.result.counters.steps;
+            s.decisions += rep.result.counters.decisions;
+            let nops = c.prog.op_count() as u64;
+            s.ops_total += nops;
+            s.max_ops = s.max_ops.max(nops);
+            if c.sweep_fire_at.is_some() && rep.result.counters.sweep_fired > 0 {
+                s.sweep_positions += 1;
+            }
+            add(&mut s.strategies, &format!("{:?}", c.strategy).split(|ch| ch == '(' || ch == ' ').next().unwrap_or("?").to_string(), 1);
+            add(&mut s.pools, &format!("pool{}", c.prog.pool_max), 1);
+            add(&mut s.liveness_modes, &format!("{:?}", oracle::liveness_mode(&c.prog)), 1);
+            if verdict.inconclusive {
+                s.inconclusive += 1;
+            }
+            if verdict.hung {
+                s.hung_runs += 1;
+            }
+            if verdict.ambiguous_hang {
+                s.ambiguous_hangs += 1;
+            }
+            if let Some(e) = &verdict.harness_error {
+                if s.harness_errors.len() < 5 {
+                    s.harness_errors.push(format!("{} #{}: {}", fam.name, i, e));
+                }
+            }
+            // non-trivial: at least one real scheduling decision among tasks that share an object
+            if rep.result.counters.decisions >= 1 && nops >= 2 {
+                s.nontrivial += 1;
+                let h = mix(prog_hash(&c.prog), rep.result.sig);
+                if h % s.sample_mod == 0 {
+                    seen.insert(h);
+                }
+            }
+            let k = &rep.result.counters;
+            for (n, val) in [
+                ("preemptions", k.preemptions),
+                ("spurious_condvar_wakeups", k.spurious_cv),
+                ("spurious_park_returns", k.spurious_park),
+                ("notify_one_choices", k.notify_picks),
+                ("condvar_waits", k.cv_waits),
+                ("parks", k.parks),
+                ("contended_locks", k.lock_contended),
+                ("pool_threads_spawned", k.pool_spawned),
+                ("tasks_spawned", k.tasks_spawned),
+                ("quiescences", k.quiescences),
+                ("sweep_injections_fired", k.sweep_fired),
+                ("harness_coins", k.harness_coins),
+            ] {
+                add(&mut s.counters, n, val);
+            }
+            if let serde_json::Value::Object(m) = serde_json::to_value(&rep.world.cover).unwrap() {
+                for (kk, vv) in m {
+                    if let Some(n) = vv.as_u64() {
+                        add(&mut s.cover, &kk, n);
+                    } else if let Some(arr) = vv.as_array() {
+                        for (idx, x) in arr.iter().enumerate() {
+                            add(&mut s.cover, &format!("{}_{}", kk, families::STATE_NAMES[idx.min(7)]), x.as_u64().unwrap_or(0));
+                        }
+                    }
+                }
+            }
+            if s.samples.len() < 2 && nops >= 3 && rep.result.counters.decisions >= 3 && (i / wn) % 97 == 3 {
+                s.samples.push(json!({
+                    "family": fam.name, "run_index": i, "run_seed": c.run_seed, "strategy": format!("{:?}", c.strategy),
+                    "program": &*c.prog, "steps": rep.result.counters.steps, "decisions": rep.result.counters.decisions,
+                    "deviations_from_default_schedule": rep.result.deviations.len(), "outcome": format!("{:?}", rep.result.outcome),
+                    "history_tail": events_tail(&rep.world, 12),
+                }));
+            }
+            let mut mine: Vec<&world::Violation> = verdict.violations.iter().filter(|x| x.prop == prop).collect();
+            for x in verdict.violations.iter().filter(|x| x.prop != prop) {
+                add(&mut s.other_property_violations, &x.prop, 1);
+            }
+            mine.retain(|x| !minimise::is_known(&known, x, &rep.world));
+            if !mine.is_empty() {
+                s.violation_count += 1;
+                if s.violation.is_none() {
+                    let first = mine[0].clone();
+                    let rf = minimise::minimise_and_package(&prop, seed, &c, &rep, &first, a.u64("minimise-secs", 40));
+                    s.violation = Some(rf);
+                    // one confirmed, minimised violation is enough for this slice
+                    break 'outer;
+                }
+            }
+            i += wn;
+        }
+    }
+    s.sampled_hashes = seen.into_iter().collect();
+    s.wall_s = t0.elapsed().as_secs_f64();
+    println!("DESIM-SUMMARY {}", serde_json::to_string(&s).unwrap());
+}
+
+fn check(a: &Args) -> i32 {
+    let prop = a.get("prop").expect("--prop").to_string();
+    let tier = a.get("tier").map(|s| s.to_string()).or_else(|| std::env::var("VERIF_TIER").ok()).unwrap_or("quick".into());
+    let seed = verif_seed(a);
+    let verif_root = a.get("verif-root").unwrap_or("/verif").to_string();
+    let n = a.u64("workers", 16);
+    let t0 = Instant::now();
+    let exe = std::env::current_exe().unwrap();
+    let mut kids = vec![];
+    for i in 0..n {
+        let mut cmd = std::process::Command::new(&exe);
+        cmd.arg("worker").arg("--prop").arg(&prop).arg("--tier").arg(&tier).arg("--seed").arg(seed.to_string()).arg("--worker").arg(i.to_string()).arg("--of").arg(n.to_string());
+        for k in ["scale", "time-cap", "minimise-secs"] {
+            if let Some(v) = a.get(k) {
+                cmd.arg(format!("--{}", k)).arg(v);
+            }
+        }
+        cmd.env("DESIM_VERIF_ROOT", &verif_root);
+        cmd.stdout(std::process::Stdio::piped());
+        kids.push(cmd.spawn().expect("spawn worker"));
+    }
+    let mut sums: Vec<WorkerSummary> = vec![];
+    let mut crashed = vec![];
+    for (i, k) in kids.into_iter().enumerate() {
+        let o = k.wait_with_output().expect("wait");
+        let text = String::from_utf8_lossy(&o.stdout).to_string();
+        match text.lines().find_map(|l| l.strip_prefix("DESIM-SUMMARY ")) {
+            Some(j) => match serde_json::from_str::<WorkerSummary>(j) {
+                Ok(s) => sums.push(s),
+                Err(e) => crashed.push(format!("worker {}: bad summary: {}", i, e)),
+            },
+            None => crashed.push(format!("worker {} died: {:?}", i, o.status)),
+        }
+    }
+    let mut tot = WorkerSummary::default();
+    let mut hashes = BTreeSet::new();
+    let mut violations: Vec<ReplayFile> = vec![];
+    for s in &sums {
+        tot.runs += s.runs;
+        tot.steps += s.steps;
+        tot.decisions += s.decisions;
+        tot.inconclusive += s.inconclusive;
+        tot.hung_runs += s.hung_runs;
+        tot.ambiguous_hangs += s.ambiguous_hangs;
+        tot.nontrivial += s.nontrivial;
+        tot.violation_count += s.violation_count;
+        tot.sweep_positions += s.sweep_positions;
+        tot.ops_total += s.ops_total;
+        tot.max_ops = tot.max_ops.max(s.max_ops);
+        tot.sample_mod = s.sample_mod;
+        for (k, v) in &s.by_family {
+            add(&mut tot.by_family, k, *v);
+        }
+        for (k, v) in &s.outcomes {
+            add(&mut tot.outcomes, k, *v);
+        }
+        for (k, v) in &s.other_property_violations {
+            add(&mut tot.other_property_violations, k, *v);
+        }
+        for (k, v) in &s.counters {
+            add(&mut tot.counters, k, *v);
+        }
+        for (k, v) in &s.cover {
+            add(&mut tot.cover, k, *v);
+        }
+        for (k, v) in &s.strategies {
+            add(&mut tot.strategies, k, *v);
+        }
+        for (k, v) in &s.pools {
+            add(&mut tot.pools, k, *v);
+        }
+        for (k, v) in &s.liveness_modes {
+            add(&mut tot.liveness_modes, k, *v);
+        }
+        for h in &s.sampled_hashes {
+            hashes.insert(*h);
+        }
+        if tot.samples.len() < 3 {
+            tot.samples.extend(s.samples.iter().cloned().take(1));
+        }
+        tot.harness_errors.extend(s.harness_errors.iter().cloned());
+        if let Some(v) = &s.violation {
+            violations.push(v.clone());
+        }
+    }
+    let wall = t0.elapsed().as_secs_f64();
+    let known = minimise::load_known_findings();
+    for kf in known.iter().filter(|k| k.property == prop && k.status == "known") {
+        println!("KNOWN-FINDING: property={} {}", prop, kf.what);
+    }
+
+    // replay files
+    let mut exit = 0;
+    let mut replay_paths = vec![];
+    if !violations.is_empty() {
+        violations.sort_by_key(|v| (v.program.op_count(), v.overrides.len()));
+        let dir = format!("{}/replays/{}", verif_root, prop);
+        std::fs::create_dir_all(&dir).ok();
+        for (i, vf) in violations.iter().enumerate().take(3) {
+            let path = format!("{}/{}-{}.json", dir, vf.family, vf.run_seed);
+            std::fs::write(&path, serde_json::to_string_pretty(vf).unwrap()).expect("write replay");
+            if i == 0 {
+                println!("VIOLATION property={} replay={}", prop, path);
+                println!("  {} [{}]: {}", vf.violation.prop, vf.violation.kind, vf.violation.msg);
+                println!("  minimised to {} operations and {} schedule deviations (from {} / {})", vf.program.op_count(), vf.overrides.len(), vf.original_ops, vf.original_overrides);
+            }
+            replay_paths.push(path);
+        }
+        exit = 1;
+    }
+    let fams = families::for_property(&prop);
+    let level = families::level_for(&prop);
+    let runs_per_hour = if wall > 0.0 { tot.runs as f64 / wall * 3600.0 } else { 0.0 };
+    let distinct = hashes.len() as u64;
+    let mut harness_fail = !crashed.is_empty() || !tot.harness_errors.is_empty();
+    let inconclusive_rate = if tot.runs > 0 { tot.inconclusive as f64 / tot.runs as f64 } else { 0.0 };
+    if inconclusive_rate > 0.005 {
+        harness_fail = true;
+        tot.harness_errors.push(format!("inconclusive rate {:.4} above 0.5%", inconclusive_rate));
+    }
+    // reach probes that must not be stuck at zero
+    let mut missing = vec![];
+    if exit == 0 {
+        for p in families::required_probes(&prop) {
+            let got = tot.cover.get(*p).or_else(|| tot.counters.get(*p)).copied().unwrap_or(0);
+            if got == 0 {
+                missing.push(p.to_string());
+            }
+        }
+        if !missing.is_empty() {
+            harness_fail = true;
+            tot.harness_errors.push(format!("reach probes stuck at zero: {:?}", missing));
+        }
+    }
+    let evidence = json!({
+        "property_id": prop,
+        "tier": tier,
+        "seed": seed,
+        "level": level,
+        "wall_s": wall,
+        "violations": tot.violation_count,
+        "coverage": {
+            "evaluations": tot.runs,
+            "distinct_nontrivial": distinct,
+            "rule": format!("one evaluation = one simulated run (generated program + seeded schedule + fault plan) of the real desync code under the deterministic kernel; a run is non-trivial when its program has >= 2 operations and the scheduler had >= 1 genuine choice between runnable tasks ({} such runs); two runs are the same case iff hash(program, full decision sequence) is equal; distinct_nontrivial counts exactly the distinct hashes among the 1/{} sample with hash % {} == 0, so it is a measured lower bound (estimated total distinct: {})", tot.nontrivial, tot.sample_mod, tot.sample_mod, distinct * tot.sample_mod),
+            "samples": tot.samples,
+            "runs_by_family": tot.by_family,
+            "families": fams.iter().map(|f| json!({"name": f.name, "what": f.what, "sweep_width": f.sweep_width})).collect::<Vec<_>>(),
+            "runs_per_hour": runs_per_hour,
+            "seeds": format!("VERIF_SEED={} -> run_seed = mix(seed, property, family, index); indices 0..N per family", seed),
+            "simulated_time": {"scheduling_steps_total": tot.steps, "scheduling_decisions_total": tot.decisions, "mean_steps_per_run": if tot.runs > 0 { tot.steps / tot.runs } else { 0 }, "step_cap": STEP_CAP, "note": "desync has no clock or timers; simulated time is counted in scheduling points"},
+            "faults_injected": tot.counters,
+            "reach_probes": tot.cover,
+            "run_outcomes": tot.outcomes,
+            "inconclusive_runs": tot.inconclusive,
+            "hung_runs_total": tot.hung_runs,
+            "hangs_not_attributable": tot.ambiguous_hangs,
+            "violations_of_other_properties_seen": tot.other_property_violations,
+            "strategies": tot.strategies,
+            "pool_maximum": tot.pools,
+            "liveness_promises": tot.liveness_modes,
+            "program_size": {"max_operations": tot.max_ops, "mean_operations": if tot.runs > 0 { tot.ops_total as f64 / tot.runs as f64 } else { 0.0 }},
+            "sweep_positions_injected": tot.sweep_positions,
+            "real_vs_stub": {
+                "real": ["src/desync.rs", "src/pipe.rs", "src/scheduler/* (built from the repository's working tree)", "futures crate pieces desync uses (oneshot, FutureObj, ArcWake)"],
+                "model": ["Mutex, Condvar, mpsc::channel, thread spawn/park/unpark/join/panicking (desync_verif_rt, every operation a scheduling point)", "lazy_static globals (per-run store)", "initial pool maximum (run configuration instead of num_cpus)"],
+                "stub": ["Gate (one-shot external event)", "SimStream (input stream)", "sim_block_on / PollOnce executor", "environment threads"]
+            },
+            "replay_files": replay_paths,
+            "exhaustive": false
+        },
+        "assumptions": [
+            "the modelled Mutex/Condvar/mpsc/park follow std's documented semantics (including poisoning rules and spurious wake-ups)",
+            "code between two scheduling points executes atomically (true: all shared state in desync is behind these primitives except one Relaxed id counter)",
+            "futures' oneshot channel is not instrumented: it never blocks and executes atomically between scheduling points",
+            "seeded search samples schedules; a clean batch is evidence, not proof"
+        ]
     });
-    d.desync(|v| *v += 100);
-    let y = d.sync(|v| *v);
-    assert!(y >= 100);
-    t.join().unwrap();
-    assert_eq!(d.sync(|v| *v), 111);
-    drop(d);
-    desync::scheduler::scheduler().verif_set_max_threads(0);
-    desync::scheduler::scheduler().despawn_threads_if_overloaded();
-    rt::statics::teardown();
+    let ev_dir = format!("{}/evidence", verif_root);
+    std::fs::create_dir_all(&ev_dir).ok();
+    std::fs::write(format!("{}/{}.json", ev_dir, prop), serde_json::to_string_pretty(&evidence).unwrap()).expect("write evidence");
+    println!(
+        "property {} tier {} seed {}: {} runs ({} non-trivial, >= {} distinct) in {:.1}s, {} steps, {} violations, {} hung, {} inconclusive; other properties: {:?}",
+        prop, tier, seed, tot.runs, tot.nontrivial, distinct, wall, tot.steps, tot.violation_count, tot.hung_runs, tot.inconclusive, tot.other_property_violations
+    );
+    for c in &crashed {
+        println!("WORKER-CRASH {}", c);
+    }
+    if exit == 1 {
+        return 1;
+    }
+    if harness_fail {
+        for e in tot.harness_errors.iter().take(8) {
+            println!("HARNESS-ERROR {}", e);
+        }
+        return 2;
+    }
+    0
+}
+
+fn replay(a: &Args) -> i32 {
+    let path = a.pos.get(1).expect("replay <file>");
+    let rf: ReplayFile = serde_json::from_str(&std::fs::read_to_string(path).expect("read replay")).expect("parse replay");
+    let spec = sim::RunSpec { prog: Arc::new(rf.program.clone()), strategy: StrategyKind::Uniform, sched_seed: 0, replay: Some(rf.overrides.clone()), sweep_fire_at: rf.sweep_fire_at, step_cap: STEP_CAP };
+    let rep = sim::run_one(&spec);
+    let verdict = oracle::analyse(&rep);
+    println!("replayed {} steps, {} decisions, outcome {:?}", rep.result.counters.steps, rep.result.counters.decisions, rep.result.outcome);
+    if a.get("verbose").is_some() {
+        for e in &rep.world.events {
+            println!("  #{} task{} {} {} {}", e.seq, e.task, e.code, e.a, e.b);
+        }
+        for t in &rep.result.tasks {
+            println!("  task {} {} {:?} {:?}", t.id, t.name, t.state, t.last_panic);
+        }
+        println!("  facts: {:?}", rep.facts);
+    }
+    for x in &verdict.violations {
+        println!("  violation {} [{}] ops {:?}: {}", x.prop, x.kind, x.ops, x.msg);
+    }
+    let same = verdict.violations.iter().find(|x| x.prop == rf.violation.prop && x.kind == rf.violation.kind);
+    match same {
+        Some(x) => {
+            let identical = x.ops == rf.violation.ops && x.seq == rf.violation.seq && x.msg == rf.violation.msg;
+            println!("VIOLATION property={} replay={}", rf.property, path);
+            println!("reproduced{}: {} [{}] {}", if identical { " exactly" } else { " (same kind, different record)" }, x.prop, x.kind, x.msg);
+            1
+        }
+        None => {
+            println!("NOT REPRODUCED: expected {} [{}]", rf.violation.prop, rf.violation.kind);
+            2
+        }
+    }
+}
+
+fn determinism(a: &Args) -> i32 {
+    let prop = a.get("prop").unwrap_or("C01").to_string();
+    let seed = verif_seed(a);
+    let runs = a.u64("runs", 500);
+    let wi = a.u64("worker", 0);
+    let wn = a.u64("of", 1);
+    let fams = families::for_property(&prop);
+    let mut bad = 0;
+    let mut total = 0;
+    let mut digest = 0u64;
+    for fam in &fams {
+        let mut i = wi;
+        while i < runs {
+            let c = make_case(seed, &prop, fam, i);
+            let r1 = run_case(&c);
+            let (h1, s1, st1, d1) = (event_log_hash(&r1.world), r1.result.sig, r1.result.counters.steps, r1.result.deviations.clone());
+            drop(r1);
+            let c2 = make_case(seed, &prop, fam, i);
+            let r2 = run_case(&c2);
+            let (h2, s2, st2) = (event_log_hash(&r2.world), r2.result.sig, r2.result.counters.steps);
+            drop(r2);
+            // and a third time from the recorded sparse schedule
+            let spec = sim::RunSpec { prog: c.prog.clone(), strategy: StrategyKind::Uniform, sched_seed: 0, replay: Some(d1), sweep_fire_at: c.sweep_fire_at, step_cap: STEP_CAP };
+            let r3 = sim::run_one(&spec);
+            let (h3, s3, st3) = (event_log_hash(&r3.world), r3.result.sig, r3.result.counters.steps);
+            total += 1;
+            if (h1, s1, st1) != (h2, s2, st2) || (h1, s1, st1) != (h3, s3, st3) {
+                bad += 1;
+                if bad < 5 {
+                    println!("NONDETERMINISTIC {} #{}: {:?} vs {:?} vs replay {:?}", fam.name, i, (h1, s1, st1), (h2, s2, st2), (h3, s3, st3));
+                }
+            }
+            digest = mix(digest, mix(h1, s1));
+            i += wn;
+        }
+    }
+    println!("DETERMINISM prop={} worker={}/{} cases={} mismatches={} digest={:016x}", prop, wi, wn, total, bad, digest);
+    if bad > 0 {
+        2
+    } else {
+        0
+    }
 }
 
 fn main() {
-    let n: u64 = std::env::args().nth(1).and_then(|s| s.parse().ok()).unwrap_or(1000);
-    let t0 = std::time::Instant::now();
-    let mut outcomes = std::collections::BTreeMap::new();
-    let mut steps = 0;
-    let mut sigs = std::collections::BTreeSet::new();
-    for i in 0..n {
-        let cfg = RunConfig { initial_max_threads: (i % 3) as usize, ..Default::default() };
-        let r = kernel::run(cfg, build(&StrategyKind::Uniform, i), scenario);
-        *outcomes.entry(format!("{:?}", r.outcome)).or_insert(0u64) += 1;
-        steps += r.counters.steps;
-        sigs.insert(r.sig);
-        if r.outcome != kernel::Outcome::Completed && outcomes.len() < 4 {
-            for t in &r.tasks { println!("  seed {} {:?}", i, t); }
+    let a = parse_args();
+    let code = match a.pos.first().map(|s| s.as_str()) {
+        Some("worker") => {
+            worker(&a);
+            0
         }
-    }
-    println!("{:?} steps={} sigs={} in {:?}", outcomes, steps, sigs.len(), t0.elapsed());
+        Some("check") => check(&a),
+        Some("replay") => replay(&a),
+        Some("determinism") => determinism(&a),
+        Some("case") => {
+            let prop = a.get("prop").unwrap_or("C01").to_string();
+            let fams = families::for_property(&prop);
+            let idx = a.u64("index", 0);
+            let to = a.u64("to", idx);
+            for f in fams.iter().filter(|f| a.get("family").map_or(true, |n| n == f.name)) {
+                for i in idx..=to {
+                    let c = make_case(verif_seed(&a), &prop, f, i);
+                    let rep = run_case(&c);
+                    let verdict = oracle::analyse(&rep);
+                    let interesting = verdict.inconclusive || !verdict.violations.is_empty() || verdict.hung || verdict.harness_error.is_some();
+                    if a.get("only").map_or(false, |o| (o == "inconclusive" && !verdict.inconclusive) || (o == "bad" && !interesting)) {
+                        continue;
+                    }
+                    println!("== {} #{} {:?} outcome {:?} steps {} hung {} inconclusive {} harness {:?}", f.name, i, c.strategy, rep.result.outcome, rep.result.counters.steps, verdict.hung, verdict.inconclusive, verdict.harness_error);
+                    if a.get("verbose").is_some() {
+                        println!("{}", serde_json::to_string(&*c.prog).unwrap());
+                        for l in events_tail(&rep.world, a.u64("tail", 60) as usize) {
+                            println!("   {}", l);
+                        }
+                        for t in &rep.result.tasks {
+                            println!("   task {} {} {:?} points {} {:?}", t.id, t.name, t.state, t.points, t.last_panic);
+                        }
+                        println!("   facts {:?}", rep.facts);
+                        println!("   notes {:?}", rep.world.notes);
+                    }
+                    for x in &verdict.violations {
+                        println!("   violation {} [{}] {:?}: {}", x.prop, x.kind, x.ops, x.msg);
+                    }
+                }
+            }
+            0
+        }
+        Some("show") => {
+            let prop = a.get("prop").unwrap_or("C01").to_string();
+            let fams = families::for_property(&prop);
+            let idx = a.u64("index", 0);
+            for f in &fams {
+                let c = make_case(verif_seed(&a), &prop, f, idx);
+                println!("{} #{}: {:?}\n{}", f.name, idx, c.strategy, serde_json::to_string_pretty(&*c.prog).unwrap());
+            }
+            0
+        }
+        _ => {
+            eprintln!("usage: desim check|worker|replay|determinism ...");
+            2
+        }
+    };
+    std::process::exit(code);
 }
